@@ -469,7 +469,10 @@ def gen_value(spec: Spec, rng: random.Random, src: str, n: int, scheme: str = "t
 def gen_invalid(spec: Spec, rng: random.Random) -> Val | None:
     """A value outside the option's grammar (None if the type accepts every text)."""
     k = spec.kind
-    if k in ("int", "AutoInt", "HexInt"):
+    if k == "HexInt":
+        s = rng.choice(["zz", "12xyz", "1.5.1", "g0"])
+        return Val(None, [s], s, toml_str(s))
+    if k in ("int", "AutoInt"):
         s = rng.choice(["zz", "0xZZ", "12abc", "1.5.1", "0b102"])
         return Val(None, [s], s, toml_str(s))
     if k == "float":
